@@ -9,12 +9,16 @@
   EXTENT ::= none | (point TS) | (range TS TS)          TS ::= (SECS NANOS xRFC3339)
   UNIQUE ::= true | false                                what the collection answers to `is_unique()`
   VAL    ::= null | (bool B) | (int TY N) | (f64 BITS xJSONTOK xDISPLAY) | (str xS) | (disp xS) | (dbg xS)
-           | (err xTOP xCAUSE…) | (lvl debug|info|warn|error) | (tid N) | (sid N) | (sv T xDISPLAY)
+           | (err xTOP xCAUSE…) | (lvl debug|info|warn|error) | (tid N) | (sid N) | (kind span|metric) | (sv T xDISPLAY)
   T      ::= null | none | unit | (bool B) | (int TY N) | (f64 BITS xJSONTOK xDISPLAY)
            | (f32 BITS32 BITS64 xJSONTOK xDISPLAY64) | (text xS) | (bin xBYTES) | (seq T…) | (map (T T)…)
            | (rec (xL T)…) | (tup T…) | (some T) | (uvar xL) | (nvar xL T) | (svar xL (xL T)…) | (tvar xL T…)
   TY     ::= u8|u16|u32|u64|u128|usize|i8|i16|i32|i64|i128|isize
 
+  RECORD (traces) ::= (span (scope x) (name x) (kind N) (start N) (end N) (tid ..) (sid ..) (psid ..) (attrs ..)
+                        (events (event (name x) (time N) (attrs ..))…) (status CODE xMESSAGE))
+  RECORD (metrics) ::= (metric (scope x) (name x) (unit x) (sum TEMPORALITY MONOTONIC)|gauge
+                        (points (pt (start N) (time N) (i N)|(d BITS) (attrs ..))…))      NaN canonicalised
   RECORD (logs) ::= (log (scope xMDL) (time N) (otime N) (sev N xTEXT) (body AV) (tid xHEX|none) (sid xHEX|none) (attrs (xK AV)…))
   AV ::= empty | (s xS) | (b B) | (i N) | (d BITS) | (a AV…) | (kv (xK AV)…) | (y xBYTES)
 -/
@@ -101,6 +105,8 @@ def val? : Sexp → Option PV
   | .list [.atom "sid", n] => do
     let n ← n.nat?
     if 0 < n ∧ n < 2 ^ 64 then some (.simple (.sid n)) else none
+  | .list [.atom "kind", .atom "span"] => some (.simple (.kind .span))
+  | .list [.atom "kind", .atom "metric"] => some (.simple (.kind .metric))
   | .list [.atom "sv", t, disp] => do pure (.tree (← tree? t) (← disp.str?))
   | _ => none
 
@@ -162,6 +168,35 @@ def showLog (r : LogRecord) : String :=
     sx "sev" [toString r.severityNumber, atomOfString r.severityText], sx "body" [showAny (.str r.body)],
     sx "tid" [showId 32 r.traceId], sx "sid" [showId 16 r.spanId], showAttrs "attrs" r.attributes]
 
+def showSpanEvent (ev : SpanEvent) : String :=
+  sx "event" [sx "name" [atomOfString ev.name], sx "time" [toString ev.timeUnixNano], showAttrs "attrs" ev.attributes]
+
+def showSpan (r : SpanRecord) : String :=
+  sx "span" [sx "scope" [atomOfString r.scope], sx "name" [atomOfString r.name], sx "kind" [toString r.kind],
+    sx "start" [toString r.startTimeUnixNano], sx "end" [toString r.endTimeUnixNano],
+    sx "tid" [showId 32 r.traceId], sx "sid" [showId 16 r.spanId], sx "psid" [showId 16 r.parentSpanId],
+    showAttrs "attrs" r.attributes, sx "events" (r.events.map showSpanEvent),
+    sx "status" [toString r.statusCode, atomOfString r.statusMessage]]
+
+/-- NaN payloads are not compared (Lean's `Float.toBits` canonicalises NaN) -/
+def canonNaN (bits : UInt64) : UInt64 :=
+  if (bits.toNat / 2 ^ 52) % 2048 == 2047 && bits.toNat % 2 ^ 52 != 0 then 0x7FF8000000000000 else bits
+
+def showPt : Pt → String
+  | .int i => sx "i" [toString i]
+  | .dbl b => sx "d" [toString (canonNaN b).toNat]
+
+def showPoint (p : DataPoint) : String :=
+  sx "pt" [sx "start" [toString p.startTimeUnixNano], sx "time" [toString p.timeUnixNano], showPt p.value,
+    showAttrs "attrs" p.attributes]
+
+def showMetric (r : MetricRecord) : String :=
+  sx "metric" [sx "scope" [atomOfString r.scope], sx "name" [atomOfString r.name], sx "unit" [atomOfString r.unit],
+    (match r.data with
+      | .sum t m => sx "sum" [toString t, toString m]
+      | .gauge => "gauge"),
+    sx "points" (r.points.map showPoint)]
+
 /-! ### branch signatures (coverage statistics only) -/
 
 partial def treeKinds : V → List String
@@ -184,6 +219,7 @@ def pvKinds : PV → List String
   | .simple (.str _) => ["str"] | .simple (.disp _) => ["disp"] | .simple (.dbg _) => ["dbg"]
   | .simple (.err _ cs) => [if cs.isEmpty then "err" else "errchain"]
   | .simple (.lvl _) => ["lvl"] | .simple (.tid _) => ["tid"] | .simple (.sid _) => ["sid"]
+  | .simple (.kind _) => ["kind"]
   | .tree v _ => treeKinds v
 
 def dedupStrings (xs : List String) : List String :=
@@ -225,6 +261,14 @@ def runOtlp (line : String) : String :=
         | "logs" => some (match logRecord e with
           | .ok r => showLog r
           | .panic => "panic")
+        | "traces" => some (match spanRecord e with
+          | none => "none"
+          | some (.ok r) => showSpan r
+          | some .panic => "panic")
+        | "metrics" => some (match metricRecord e with
+          | none => "none"
+          | some (.ok r) => showMetric r
+          | some .panic => "panic")
         | _ => none
       match out? with
       | some out => s!"{out}\t{sig},{eventSig e}"
